@@ -50,7 +50,7 @@ SLOTS: dict[str, dict[str, str]] = {
     "terms.AtTimezone": {"field": "Field", "zone": "sql", "interval": "data"},
     "functions.DistinctOptionFunction": {"_distinct": "bool"},
     "functions.ApproximatePercentile": {"percentile": "float"},
-    "functions.Cast": {"as_type": "any"},
+    "functions.Cast": {"as_type": "sql|SqlType|SqlTypeLength"},
     "functions.Convert": {"encoding": "Enum"},
     "functions.Extract": {"field": NODE},
     "enums.SqlType": {"name": "sql"},
